@@ -334,6 +334,16 @@ def c_reuse(ctx, case):
                      f"call {i} on one StringifyMapper object: {G.src(e)} printed as {got!r}; a "
                      f"fresh printer gives {want!r}")
             return
+        if i % 7 == 3:
+            # the expression just printed, now as a PART of the next ones (the same object)
+            for e2 in (p.Product((e, p.Variable("z"))), p.Power(e, 2), p.Sum((e, 1))):
+                ctx.count("reused_printer_calls")
+                got, want = m(e2), strmod.StringifyMapper()(e2)
+                if got != want:
+                    ctx.fail("C06.reuse", case, "reuse:text-differs:grown",
+                             f"one StringifyMapper object printed {G.src(e)}, then {G.src(e2)} built "
+                             f"around that object as {got!r}; a fresh printer gives {want!r}")
+                    return
         del e
 
 
@@ -509,12 +519,34 @@ def workload(ctx):
                     e = build(kind, kids)
                     ctx.case(("np", normal.typed_key(e)), True, n=0)
                     ctx.run("C06.numpy", (e,))
+        # sharing: ONE composite object at two places of the tree whose contexts differ (a tree
+        # built by a program that names a sub-expression and uses it twice; the parser and the
+        # generators above only ever make equal copies)
+        for child in [k for k in children_kinds if k in REDUCED]:
+            s_ = leafy(child)
+            if not isinstance(s_, p.Expression):
+                continue
+            for j, e in enumerate(scale.shared_contexts(s_, 3, C, p.Comparison(C, ">", 0))):
+                if ctx.mine("shared"):
+                    ctx.case(("shared", child, j), True, n=0)
+                    ctx.count("shared_node_trees")
+                    ctx.run("C06.roundtrip", (e,))
+        for i in range(ctx.per_shard(ctx.pick(1500, 30000))):
+            r2 = ctx.sub_rng("graft", i)
+            e = rand_tree(r2, r2.randint(2, 5), ctx.hist)
+            e = scale.graft(e, r2) if isinstance(e, p.Expression) else None
+            if e is None:
+                continue
+            ctx.case(("graft", normal.typed_key(e)), True, n=0)
+            ctx.count("shared_node_trees")
+            ctx.run("C06.roundtrip", (e,))
         for i in range(ctx.per_shard(ctx.pick(16, 160))):
             ctx.case(("reuse", ctx.seed, ctx.shard, i), True, n=0)
             ctx.run("C06.reuse", ((ctx.seed, ctx.shard, i), 60))
         for k, v in tr.handlers().items():
             ctx.count("handler:" + k, v)
     ctx.floor("wide_nodes", 2000)
+    ctx.floor("shared_node_trees", 600)
     ctx.floor("refused_between_reads", 80)
     ctx.floor("hook_roundtrips", 300)
     ctx.floor("long_names_and_big_constants", 60)
